@@ -1254,8 +1254,13 @@ def section_setslice(env, ctx, model):
             x[slice(a, b, st)] = BA(rhs) if as_block else list(rhs)
             return x
 
+        before = list(x.arrays)
         impl = impl_call(do, [], {})
         ctx.case({"section": "setslice", "n": n, "slice": f"{a}:{b}:{st}", "values": m}, ("setslice", n, a, b, st, m))
+        if impl[0] == "err" and not (len(x.arrays) == len(before) and all(p is q for p, q in zip(x.arrays, before))):
+            failh = {"statement": f"x[{a}:{b}:{st}] = {m} arrays  (rejected: {impl[1]})", "n_blocks": n,
+                     "x_afterwards": [str(bk.shape) + ":" + str(bk.dtype) for bk in x.arrays], "expected": "x unchanged"}
+            ctx.disagree("block.setslice-rejected-state", {"section": "setslice", "n": n, "start": a, "stop": b, "step": st, "values": m}, failh["x_afterwards"], "unchanged", oracle=lambda c, failh=failh: failh)
         ctx.count(f"setslice:model={'err:' + mres[1] if mres[0] == 'err' else 'ok/blocks=' + str(len(mres[1]['blk']))}")
         agree = (mres[0] == "err" and impl == ("err", mres[1])) or (mres[0] == "ok" and impl[0] == "ok" and len(impl[1].arrays) == len(mres[1]["blk"])
                                                                    and all(same_or_identical(ev.val(tm), impl[1].arrays[i]) for i, tm in enumerate(mres[1]["blk"])))
@@ -1657,8 +1662,14 @@ def section_setitem(env, ctx, model):
             x[k] = v
             return x
 
+        before = list(x.arrays)
         impl = impl_call(do, [], {})
         ctx.case({"section": "setitem", "n": n, "k": k, "value": vtag}, ("setitem", n, k, vtag))
+        if impl[0] == "err" and not (len(x.arrays) == len(before) and all(a is b for a, b in zip(x.arrays, before))):
+            # history: a rejected assignment must leave the block array as it was
+            failh = {"statement": f"x[{k}] = v  (rejected: {impl[1]})", "n_blocks": n, "value": vtag,
+                     "x_afterwards": [type(b).__name__ + ":" + str(getattr(b, "dtype", "-")) for b in x.arrays], "expected": "x unchanged"}
+            ctx.disagree("block.setitem-rejected-state", {"section": "setitem", "n": n, "k": k, "value": vtag}, failh["x_afterwards"], "unchanged", oracle=lambda c, failh=failh: failh)
         ctx.count(f"setitem:{vtag}")
         ctx.count(f"setitem:model={'err:' + m[1] if m[0] == 'err' else 'ok'}")
         # the property on the real object
